@@ -106,6 +106,26 @@ func numText(v *ref.Value) string {
 	return v.K.String()
 }
 
+// convCheck returns the first disagreement of Iter.Int/Uint/Float with the conversion oracle ("" if none).
+func convCheck(it *simdjson.Iter, v *ref.Value) string {
+	if !isNum(v) {
+		return ""
+	}
+	gi, ei := it.Int()
+	if wi, ok, _ := wantInt(v); ok != (ei == nil) || (ok && gi != wi) {
+		return fmt.Sprintf("Iter.Int() on %s = %d,%v; want %d ok=%v", numText(v), gi, ei, wi, ok)
+	}
+	gu, eu := it.Uint()
+	if wu, ok, judged := wantUint(v); judged && (ok != (eu == nil) || (ok && gu != wu)) {
+		return fmt.Sprintf("Iter.Uint() on %s = %d,%v; want %d ok=%v", numText(v), gu, eu, wu, ok)
+	}
+	gf, ef := it.Float()
+	if wf, _ := wantFloat(v); ef != nil || math.Float64bits(gf) != math.Float64bits(wf) {
+		return fmt.Sprintf("Iter.Float() on %s = %v,%v; want %v", numText(v), gf, ef, wf)
+	}
+	return ""
+}
+
 // c12Scalar checks Iter.Int/Uint/Float on one numeric value.
 func (w *W) c12Scalar(it *simdjson.Iter, v *ref.Value, cs *ev.Case) {
 	if !isNum(v) {
